@@ -85,7 +85,8 @@ def work(item):
             if not is_ok(x):
                 ec = c05.error_class(x)
                 who = code if nm == "braille" else (lang if nm.startswith("nav:") else f"{lang}|{style}")
-                viol.append((f"C15|{nm}-fails|{who}|{ec}", f"[{cfg}] {label}: {nm} failed: {ec}", replay))
+                # keyed by the construct as well: a getter that starts failing on OTHER expressions is a different finding
+                viol.append((f"C15|{nm}-fails|{who}|{ec}|{canon_run.label_class(label)}", f"[{cfg}] {label}: {nm} failed: {ec}", replay))
             else:
                 nontriv.append(hash((cfg, nm, norm_ids(val(x)) if isinstance(val(x), str) else "")))
     return viol, counts, nontriv, obs, fired, cfg
